@@ -43,7 +43,7 @@ def base_cfg(rng, prof):
     if rng.random() < prof.get('p_data', 0.25):
         cfg['data'] = [['pdata', rng.choice([0x300, 0x310, 0x3f8]), rng.choice([0, 0xAA, 0x1FF]), rng.choice([1, 2, 4])]]
     if rng.random() < 0.3:
-        cfg['syms'] = [[rng.choice(SYMS), rng.choice(['0', '1', '5'])]]
+        cfg['syms'] = [[rng.choice(SYMS), rng.choice(['0', '1', '5', '1', None])]]
     if rng.random() < 0.3:
         s = rng.choice([x for x in SYMS if x not in [y[0] for y in cfg['syms']]])
         cfg['cli'] = [[s, rng.choice(['0', '1', '2', ''])]]
@@ -570,8 +570,16 @@ def gen_placement(rng, tier):
     stmts = []
     n = rng.randint(2, 5)
     mk = 1
+    # "straight" programs: no origin or zone directive anywhere, the code simply grows from the default origin -- into a
+    # predefined data block, or two predefined blocks lie on each other
+    straight = rng.random() < 0.2
+    if straight:
+        cfg['origin'] = 0x18
+        cfg['data'] = [['pdata', rng.randint(0x19, 0x22), 0xAA, rng.choice([1, 2, 4])]]
+        if rng.random() < 0.3:
+            cfg['data'].append(['pdata2', cfg['data'][0][1] + rng.choice([0, 1, 3, 6]), 0xBB, 2])
     for _ in range(n):
-        r = rng.random()
+        r = 1.0 if straight else rng.random()
         if r < 0.45:
             stmts.append(['org', num(rng.randint(0x18, 0x3a)), None])
         elif r < 0.7:
